@@ -22,6 +22,7 @@ structure Result where
   specFail  : Option (Nat × String) := none
   envBad    : Option (Nat × String) := none     -- '?' line outside what the model allows
   tags      : List String := []                  -- non-default model branches this script reached
+  more      : List String := []                  -- clauses violated after (or together with) the first one
 
 def parseLine (s : String) : Option Line :=
   let s := s.trimAscii.toString
@@ -89,6 +90,7 @@ def report (id : String) (r : Result) : IO Unit := do
   IO.println s!"script {id} ops={r.ops} model={m} spec={s} env={e} tags={",".intercalate r.tags}"
   if let some (_, d) := r.modelDiff then IO.println s!"  model-detail: {d}"
   if let some (_, d) := r.specFail then IO.println s!"  spec-detail: {d}"
+  if !r.more.isEmpty then IO.println s!"  spec-more: {" || ".intercalate r.more}"
   if let some (_, d) := r.envBad then IO.println s!"  env-detail: {d}"
 
 def addTag (ts : List String) (t : String) : List String := if ts.contains t then ts else ts ++ [t]
